@@ -3,7 +3,7 @@ import FinamModel.Translated.Output__interpolate
 import FinamModel.Translated.Output__clear_data
 import FinamModel.Translated.Output_get_data
 import FinamModel.Static
-import FinamModel.Props.TrTime
+import FinamModel.Props.TrCommon
 /-
   Equivalence of the translated `Output._interpolate` (regenerated from `finam/sdk/output.py`) with the
   hand-written `lookup` of the C08 / C09 theorems.
